@@ -9,6 +9,7 @@ pub mod c07;
 pub mod c08;
 pub mod c09;
 pub mod c10;
+pub mod c13;
 
 pub fn dispatch(cfg: &Cfg) -> Option<Outcome> {
     Some(match cfg.prop.as_str() {
@@ -21,6 +22,7 @@ pub fn dispatch(cfg: &Cfg) -> Option<Outcome> {
         "C08" => c08::run(cfg),
         "C09" => c09::run(cfg),
         "C10" => c10::run(cfg),
+        "C13" => c13::run(cfg),
         _ => return None,
     })
 }
